@@ -347,7 +347,7 @@ func mutate(rng *hx.Rng, data []byte) ([]byte, string) {
 	return out, fmt.Sprintf("%s+%d:%02x->%02x", c.name, p-c.lo, old, out[p])
 }
 
-func files(seed uint64, n int, bin, tmp, casesPath string) {
+func files(seed uint64, n int, bin, tmp, casesPath string, caseFiles int) {
 	rng := hx.NewRng(seed ^ 0xf11e)
 	_ = os.MkdirAll(tmp, 0o755)
 	// whole-tool correspondence: every run (input file bytes, ms, outcome class, output file bytes) as a case line for the
@@ -363,8 +363,9 @@ func files(seed uint64, n int, bin, tmp, casesPath string) {
 		defer cw.Flush()
 	}
 	caseNr := 0
+	curFile := 0
 	emitCase := func(ms uint64, in []byte, class string, outPath string) {
-		if cw == nil {
+		if cw == nil || (caseFiles > 0 && curFile >= caseFiles) {
 			return
 		}
 		oh := "-"
@@ -399,6 +400,7 @@ func files(seed uint64, n int, bin, tmp, casesPath string) {
 	mrng := hx.NewRng(seed ^ 0xbadf11e) // own stream: the valid files do not depend on -o
 	opt := tbl.GenOpt{MaxEntries: 4, MaxChunks: 3, MaxSpc: 4, ZeroDeltaPct: 0, VaryIDPct: 30, BigPct: 0}
 	for fi := 0; fi < n; fi++ {
+		curFile = fi
 		nt := rng.Range(1, 3)
 		// one file in 16 with several tracks carries the same track id twice (not a valid file: the tool must refuse it,
 		// finding C10-F10; a success goes through the ordinary output checks)
@@ -565,7 +567,7 @@ func files(seed uint64, n int, bin, tmp, casesPath string) {
 		}
 		// malformed stream (correspondence only: the property is about well-formed inputs): one mutated copy of every
 		// second file, at three durations
-		if cw != nil && fi%2 == 0 {
+		if cw != nil && fi%2 == 0 && (caseFiles <= 0 || fi < caseFiles) {
 			if md, _ := mutate(mrng, data); md != nil {
 				mPath := filepath.Join(tmp, fmt.Sprintf("mut_%d.mp4", fi))
 				if err := os.WriteFile(mPath, md, 0o644); err != nil {
